@@ -128,6 +128,7 @@ type FmtCase struct {
 	Expr   string `json:"expr"`
 	Out    string `json:"out"`
 	Second string `json:"second,omitempty"`
+	Nul    bool   `json:"nul,omitempty"`
 }
 
 func genFmt(t *rapid.T) FmtCase {
@@ -137,6 +138,7 @@ func genFmt(t *rapid.T) FmtCase {
 	if rapid.IntRange(0, 3).Draw(t, "second") == 0 {
 		c.Second = g.value(2).JSON()
 	}
+	c.Nul = rapid.IntRange(0, 4).Draw(t, "nul") == 0
 	return c
 }
 
@@ -185,7 +187,11 @@ func checkFmt(c FmtCase) hx.Verdict {
 		tokens(r, &want)
 	}
 	flatOnly = false
-	args := append([]string{"-p=json", "-o=" + c.Out, "--expression", c.Expr}, files...)
+	args := []string{"-p=json", "-o=" + c.Out}
+	if c.Nul {
+		args = append(args, "-0")
+	}
+	args = append(append(args, "--expression", c.Expr), files...)
 	r := run(args, nil)
 	if crashed(r) {
 		return hx.Bad("panic-site:binary", "yq crashed: %v stderr=%.400s", args, r.Stderr)
@@ -200,7 +206,7 @@ func checkFmt(c FmtCase) hx.Verdict {
 	if strings.Contains(r.Stderr, "Error:") {
 		return hx.Bad("", "exit 0 with an error message on stderr (%q): %v", r.Stderr, args)
 	}
-	text := r.Stdout
+	text := strings.ReplaceAll(r.Stdout, "\x00", "\n")
 	switch c.Out {
 	case "base64":
 		var dec strings.Builder
@@ -390,7 +396,7 @@ func genE(t *rapid.T) ECase {
 		Doc:  rapid.SampledFrom([]string{"a: 1\nb: false\nc: null\nd: []\ne: \"\"\nf: 0\n", "a: false\n", "a: null\n---\na: 5\n", "a: 5\n---\na: false\n", "a: false\n---\na: null\n", "[]\n", "", "a: {x: null}\n", "- false\n- null\n", "- false\n- 1\n"}).Draw(t, "doc"),
 		Expr: rapid.SampledFrom([]string{".a", ".b", ".c", ".d", ".e", ".f", ".nope", ".[]", "select(.a == 5)", ".a // false", "false", "null", "0", "\"false\"", ".. | select(. == null)", "(.a, .b)", ".a.x", "[]", "{}", ".[] | select(. == 1)", "empty_placeholder"}).Draw(t, "expr"),
 		Mode: rapid.SampledFrom([]string{"", "", "ea"}).Draw(t, "mode"),
-		Out:  rapid.SampledFrom([]string{"", "-o=json", "-o=props", "-r=false"}).Draw(t, "out"),
+		Out:  rapid.SampledFrom([]string{"", "-o=json", "-o=props", "-r=false", "-0", "-0"}).Draw(t, "out"),
 	}
 }
 
@@ -554,6 +560,7 @@ func TestProp(t *testing.T) {
 		hx.NewSub("formats", 500, 5000, genFmt, checkFmt),
 		hx.NewSub("failures", 300, 3000, genFail, checkFail),
 		hx.NewSub("exit_status", 300, 3000, genE, checkE),
+		hx.NewSub("multifile", 250, 2500, genMF, checkMF),
 		hx.NewSub("null_input", 60, 600, func(t *rapid.T) NCase {
 			return NCase{Expr: rapid.SampledFrom([]string{"1", "{\"a\": 1}", "\"x\"", ".", ".a = 1", "[1,2] | .[]", "null", ".a.b = \"c\""}).Draw(t, "expr"),
 				Stdin: rapid.SampledFrom([]string{"a: 1\n", "", "x: [1,2]\n---\ny: 2\n", "not yaml: [\n", strings.Repeat("k: v\n", 5000)}).Draw(t, "stdin"),
